@@ -37,6 +37,40 @@ def cases(prof):
   return strat
 
 
+def split_ruby(spec, picks):
+  """ruby parts sent to different regions and given their own begin: the per-region document copies of the accelerated path then hold
+  a ruby that has lost a part before any snapshot is taken (built on purpose, rare otherwise)"""
+  if spec["body"] is None:
+    return spec
+  while len(spec["regions"]) < 2:
+    spec["regions"].append(dict(kind="region", id="rs%d" % len(spec["regions"]), begin=None, end=None, region=None, styles={}, anims=[],
+                                kids=[], space="default", lang=""))
+  regs = [r["id"] for r in spec["regions"]]
+  # everything flows into the first region, except the part of a ruby that is sent to the second one
+  for n in gen_model.walk(spec["body"]):
+    n["region"] = None
+  spec["body"]["region"] = regs[0]
+  k = 0
+  for n in gen_model.walk(spec["body"]):
+    if n["kind"] != "ruby" or k >= len(picks) or len(n["kids"]) < 2:
+      continue
+    which, begin, away = picks[k]
+    k += 1
+    base, annot = n["kids"][0], n["kids"][-1]
+    (base if which else annot)["begin"] = begin
+    (annot if away else base)["region"] = regs[1]
+  return spec
+
+
+def cases_split(prof):
+  def strat(tier):
+    pick = st.tuples(st.sampled_from([True, True, True, False]), st.sampled_from([gen_model.F(1), gen_model.F(3), gen_model.F(7)]),
+                     st.sampled_from([True, True, True, False]))
+    return st.builds(lambda spec, extra, picks: {"spec": split_ruby(spec, picks), "extra": extra}, gen_model.docspecs(prof),
+                     st.lists(st.fractions(0, 12, max_denominator=997), max_size=2), st.lists(pick, min_size=3, max_size=4))
+  return strat
+
+
 def total_leaves(spec):
   n = 0
   if spec["body"] is not None:
@@ -67,6 +101,10 @@ def check(case, res):
       feats.add("has-display")
     if n["kind"] not in ("region", "text", "br") and n["begin"] is not None and n["end"] is not None and n["begin"] >= n["end"]:
       feats.add("has-inverted-interval")
+  for n in gen_model.all_nodes(spec):
+    if n["kind"] == "ruby" and n["kids"] and n["kids"][0]["kind"] == "rbc" and n["kids"][0]["begin"] is not None and \
+        any(k["region"] is not None for k in n["kids"][1:]):
+      feats.add("ruby-container-with-timed-base-and-annotation-in-another-region")
   res.label(*feats)
   sig = [None]
   for t in times:
@@ -122,5 +160,7 @@ PARTS = {
                required_labels=("has-ruby", "has-animation", "has-region-ref", "has-display", "has-inverted-interval",
                                 "regions:0", "regions:1", "regions:3")),
   "ruby_timed": Part("ruby_timed", check, strategy=cases(RUBY_TIMED), n=(160, 8000), required_labels=("has-ruby",), shrinker=SHRINK),
+  "ruby_split": Part("ruby_split", check, strategy=cases_split(RUBY_TIMED), n=(480, 16000), shrinker=SHRINK,
+                     required_labels=("has-ruby", "ruby-container-with-timed-base-and-annotation-in-another-region")),
   "br_styles": Part("br_styles", check, strategy=cases(BR_STYLES), n=(160, 8000), shrinker=SHRINK),
 }
